@@ -20,7 +20,9 @@ RULE = ("a fixed catalogue of statement templates (assignment to name/attribute/
         "if/elif/while/for headers incl. probe-bearing for targets, return, calls mixing positional, "
         "starred, keyword and double-starred arguments, comparison chains, boolean short-circuits, "
         "conditional expressions, walrus, comprehensions, f-strings, lambdas with defaults, imports) "
-        "x {module, function, class} placement x 8 configurations, swept completely; plus "
+        "x {module, function, class} placement x 8 configurations, swept completely, and every template "
+        "once more inside each of 16 further containers (closure, nested and decorated function, method, "
+        "class in function, function in a loop, taken if/else/elif branch, for/while bodies, loop else); plus "
         "Hypothesis-drawn target patterns (depth <= 3, arity <= 4) with a probe at every leaf. "
         "Non-trivial: the statement has >= 2 probes whose relative order is observable; distinct "
         "by (template, placement).")
@@ -151,6 +153,10 @@ SETUP = {
 
 
 def place(body, where):
+    if where.startswith("nest:"):
+        # one of the G-NEST containers (closure, method, class in function, loop bodies, branches, ...)
+        from ..gen import nest
+        return PRE + "\n".join(nest._nest(where[5:], 7, body.split("\n"))) + "\n"
     if where == "module":
         return PRE + body + "\n"
     ind = "\n".join("    " + l for l in body.split("\n"))
@@ -204,12 +210,27 @@ def check_template(part, t, where, switches):
                                    "what": "evaluation order/count differs for template %r in %s placement" % (t[:60], where)})
 
 
+def nested_cases():
+    """every template in every G-NEST container (beyond module / function / class)"""
+    from ..gen import nest
+    out = []
+    for c in sorted(nest.CONTAINERS):
+        if c in ("module", "func", "class"):
+            continue
+        in_func = nest.CONTAINERS[c][1].get("func", False)
+        out += [(t, "nest:" + c) for t in TEMPLATES]
+        if in_func:
+            out += [(t, "nest:" + c) for t in TEMPLATES_IN_FUNC_ONLY]
+    return out
+
+
 def _template_shard(item):
     idx, nshards, switches = item
     part = new_part()
     cases = [(t, w) for t in TEMPLATES for w in ("module", "function", "class")]
     cases += [(t, "function") for t in TEMPLATES_IN_FUNC_ONLY]
     cases += [(t, "module") for t in TEMPLATES_MODULE_ONLY]
+    cases += nested_cases()
     for k in range(idx, len(cases), nshards):
         check_template(part, cases[k][0], cases[k][1], switches)
     if idx == 0:
